@@ -31,7 +31,7 @@ def model_to_dict(m):
     return out
 
 
-def _cvc5_check(solver, timeout_s, strings=False):
+def _cvc5_check(solver, timeout_s, strings=False, fmf=False):
     smt2 = solver.to_smt2()
     if strings:
         smt2 = smt2.replace('(set-info :status unknown)', '')
@@ -42,6 +42,8 @@ def _cvc5_check(solver, timeout_s, strings=False):
         cmd = [CVC5, '--lang=smt2', f'--tlimit={int(timeout_s * 1000)}']
         if strings:
             cmd.append('--strings-exp')
+        if fmf:
+            cmd.append('--finite-model-find')
         r = subprocess.run(cmd + [path], capture_output=True, text=True, timeout=timeout_s + 5)
         out = r.stdout.strip().splitlines()
         return out[0] if out else 'unknown'
@@ -75,6 +77,13 @@ def check_sat(constraints, timeout_ms=None, strings=False, want_model=True):
         return 'unsat', None, 'cvc5', time.time() - t0, s
     if r2 == 'sat':
         return 'sat', None, 'cvc5', time.time() - t0, s
+    dump = os.environ.get('VERIF_DUMP_UNKNOWN')
+    if dump:
+        os.makedirs(dump, exist_ok=True)
+        import hashlib
+        txt = s.to_smt2()
+        with open(os.path.join(dump, hashlib.sha1(txt.encode()).hexdigest()[:10] + '.smt2'), 'w') as f:
+            f.write('(set-logic ALL)\n' + txt)
     return 'unknown', None, 'z3,cvc5', time.time() - t0, s
 
 
@@ -180,6 +189,17 @@ def prove(hyps, goal, timeout_ms=None, strings=False):
             r, _, be2, secs2, _ = check_sat(ab, timeout_ms, False, want_model=False)
             if r == 'unsat':
                 return 'discharged', None, be2 + '(strings abstracted)', secs + secs2, 'unsat after abstracting the string theory'
+        except Exception:
+            pass
+        # refutation attempt: the quantified invariants range over uninterpreted sorts (names, objects), where cvc5's finite model
+        # finder produces genuine models that z3's MBQI does not reach within the budget; only a `sat` answer is used
+        try:
+            sv = z3.Solver()
+            for c in list(hyps) + [z3.Not(goal)]:
+                sv.add(c)
+            t1 = time.time()
+            if _cvc5_check(sv, min(10.0, (timeout_ms or Z3_TIMEOUT_MS) / 1000.0), strings, fmf=True) == 'sat':
+                return 'refuted', None, 'cvc5(finite-model-find)', secs + time.time() - t1, 'sat (finite model of the negated verification condition)'
         except Exception:
             pass
     return st, model, backend, secs, txt
